@@ -310,7 +310,7 @@ EX_T = make_exact(CASES)
 
 SPEC = {
     'id': 'C09',
-    'rule': ('states of real and complex dtype, real model MPOs and harness-built complex Hermitian MPOs; exactness: every total-charge sector of XXZ, spin-1 XXZ, Bose d=3, Ising for every L with d^L <= 243 (XXZ <= 1024; quick L <= 4), a generic '
+    'rule': ('states of real and complex dtype, real model MPOs and harness-built complex Hermitian MPOs; exactness: every total-charge sector of XXZ, spin-1 XXZ, Bose d=3, Ising, hand-built nearest-neighbour pattern models and long-range models with spectator sites (lr2q, lr3q: terms whose end points are not neighbours, compiled from operator chains) for every L with d^L <= 243 (XXZ <= 1024; quick L <= 4), a generic '
              'full-sector state with maximal bond dimensions, both integrators, dt imaginary / real / complex (|dt| in [0.05, 0.3]), 1..3 steps, Krylov '
              'dimension >= local dimension. The manifold is classified from the quantum numbers alone: class E (every bond saturated on one side for all '
              'charge blocks) must be exact to 1e-9; class M (sector-complete, mixed saturation) is the known finding and must still obey the third-order '
